@@ -5,6 +5,9 @@
 //   -DPART=0 transform/geometry equivalence, 1 group laws, 2 (a,b)/(b,a) storage + generated vpsc constraints
 #include "verif.h"
 #include <cmath>
+#include <map>
+#include <string>
+#include <stdexcept>
 #include "libdialect/constraints.h"
 #include "libdialect/graphs.h"
 #include "libvpsc/variable.h"
@@ -143,6 +146,51 @@ extern "C" void harness(void) {
                 if (writesX) same = same & (p->xgt == q->xgt) & (p->xst == q->xst) & same_double(p->xgap, q->xgap);
                 if (writesY) same = same & (p->ygt == q->ygt) & (p->yst == q->yst) & same_double(p->ygap, q->ygap);
                 CHECK(same, "C18 re-storing an existing pair through (a,b) or (b,a) gives what a fresh store gives");
+            }
+        }
+#elif PART == 4
+        {
+            // TGLF writing: the line(s) SepPair::writeTglf emits are read back by a tiny reader in the harness (format of
+            // io.cpp: "<src> <tgt> <B|C> <dir letter> <==|>=> <gap>"); the re-read constraint must accept exactly the placements
+            // the original accepts.  Gap *numbers* are not compared (number formatting is not modelled): the reader takes
+            // the magnitude from the original.  This covers the writer's choice of gap type, direction letter and relation.
+            for (int ti = -1; ti < 7; ti++) {
+                SepPair q = base; if (ti >= 0) q.transform(TFS[ti]);
+                SepMatrix mm(nullptr);
+                std::map<id_type, unsigned> id2ext; id2ext[1] = 1; id2ext[2] = 2;
+                std::string text; bool threw = false;
+                try { text = q.writeTglf(id2ext, mm); } catch (std::runtime_error &e) { threw = true; }
+                bool coincide = (q.xgt == GapType::CENTRE && q.xst == SepType::EQ && q.xgap == 0 && q.ygt == GapType::CENTRE && q.yst == SepType::EQ && q.ygap == 0);
+                CHECK(threw == coincide, "C18 writeTglf refuses exactly the constraints that force two nodes to coincide");
+                if (threw) continue;
+                SepPair back; back.src = 1; back.tgt = 2;
+                const char *tx = text.c_str(); size_t len = text.size(), pos = 0; int lines = 0;
+                while (pos < len) {
+                    // one line: up to 6 space-separated tokens (only their first two characters matter)
+                    char t0[6][3]; int nt = 0;
+                    while (pos < len && tx[pos] != '\n') {
+                        if (nt < 6) { t0[nt][0] = tx[pos]; t0[nt][1] = (pos + 1 < len && tx[pos + 1] != ' ' && tx[pos + 1] != '\n') ? tx[pos + 1] : 0; t0[nt][2] = 0; }
+                        nt++;
+                        while (pos < len && tx[pos] != ' ' && tx[pos] != '\n') pos++;
+                        if (pos < len && tx[pos] == ' ') pos++;
+                    }
+                    pos++; lines++;
+                    CHECK(nt == 6 && t0[0][0] == '1' && t0[0][1] == 0 && t0[1][0] == '2' && t0[1][1] == 0, "C18 writeTglf emits well-formed lines for the pair");
+                    if (nt != 6) continue;
+                    GapType g2 = t0[2][0] == 'B' ? GapType::BDRY : GapType::CENTRE;
+                    SepType s2 = (t0[4][0] == '=' && t0[4][1] == '=') ? SepType::EQ : SepType::INEQ;
+                    char L = t0[3][0];
+                    if (L == 'X') { back.addSep(GapType::CENTRE, SepDir::RIGHT, SepType::EQ, 0.0); continue; }   // "C X == 0": x-aligned
+                    if (L == 'Y') { back.addSep(GapType::CENTRE, SepDir::DOWN, SepType::EQ, 0.0); continue; }
+                    SepDir d2 = L == 'E' ? SepDir::EAST : L == 'S' ? SepDir::SOUTH : L == 'W' ? SepDir::WEST : L == 'N' ? SepDir::NORTH :
+                                L == 'R' ? SepDir::RIGHT : L == 'D' ? SepDir::DOWN : L == 'L' ? SepDir::LEFT : SepDir::UP;
+                    bool horiz = (L == 'E') | (L == 'W') | (L == 'R') | (L == 'L');
+                    double og = horiz ? q.xgap : q.ygap;
+                    double mag = std::signbit(og) ? -og : og;           // the number the writer printed
+                    back.addSep(g2, d2, s2, mag);
+                }
+                CHECK(lines >= 1, "C18 writeTglf emits at least one line for a non-empty constraint");
+                CHECK(sat(back, S, T) == sat(q, S, T), "C18 the TGLF text written for a constraint describes the same constraint");
             }
         }
 #else
